@@ -529,6 +529,8 @@ func checkC05(c *Check) {
 	c05PerDomainState(c)
 	c05ADPerServer(c, "R10")
 	c05FuturesByValue(c, "R11")
+	c05CloseCloses(c, "R12")
+	c05WaitsWithCallersContext(c, "R13")
 }
 
 // R9: a policy's per-message object outlives one destination: the remote target calls PrepareDomain once per
